@@ -392,7 +392,7 @@ theorem generator_singleSample {g : Generator} (hg : (∃ mx perms, g = .segrega
       exact hss
 
 /-- the smoothers other than the ensemble keep single-sample unobserved plates -/
-theorem smoother_singleSample {sm : Smoother} (hsm : ∀ a b c d e, sm ≠ .ensemble a b c d e) {r out : Screen}
+theorem smoother_singleSample_basic {sm : Smoother} (hsm : ∀ a b c d e, sm ≠ .ensemble a b c d e) {r out : Screen}
     (h : sm.wrapped r = .ok out) (hs : SingleSample (rowsOf r)) : SingleSample (rowsOf out) := by
   apply wrap_singleSample h hs
   intro u nu hu hnu
@@ -424,5 +424,51 @@ theorem smoother_singleSample {sm : Smoother} (hsm : ∀ a b c d e, sm ≠ .ense
   | optimalSize ch => exact ofSub (optimal_sublist hnu)
   | nPlate k => exact ofSub (nPlate_sublist hnu)
   | ensemble a b c d e => exact absurd rfl (hsm a b c d e)
+
+theorem singleSampleAll_of_unmasked {rows : List Row} (h : SingleSample rows) (hm : ∀ r ∈ rows, r.mask = false) : SingleSampleAll rows :=
+  fun r1 h1 r2 h2 e => h r1 h1 r2 h2 (hm r1 h1) (hm r2 h2) e
+
+/-- the ensemble (four wrapped smoothers in sequence) on a fully unobserved screen whose plates are single-sample -/
+theorem ensemble_singleSample {minSize nIter minN : Int} {pops : List Nat} {choices : List (List Nat)} {u nu : Screen}
+    (hm0 : ∀ r ∈ rowsOf u, r.mask = false) (hs0 : SingleSample (rowsOf u))
+    (h : ensemble minSize nIter minN pops choices u = .ok nu) :
+    (∀ r ∈ rowsOf nu, r.mask = false) ∧ SingleSample (rowsOf nu) := by
+  simp only [ensemble] at h
+  obtain ⟨s1, h1, h⟩ := bind_ok h
+  obtain ⟨s2, h2, h⟩ := bind_ok h
+  obtain ⟨s3, h3, h⟩ := bind_ok h
+  have ne1 : ∀ a b c d e, Smoother.mergeMin minSize pops ≠ .ensemble a b c d e := fun _ _ _ _ _ hx => by cases hx
+  have ne2 : ∀ a b c d e, Smoother.mergeTopBottom nIter ≠ .ensemble a b c d e := fun _ _ _ _ _ hx => by cases hx
+  have ne3 : ∀ a b c d e, Smoother.optimalSize choices ≠ .ensemble a b c d e := fun _ _ _ _ _ hx => by cases hx
+  have ne4 : ∀ a b c d e, Smoother.nPlate minN ≠ .ensemble a b c d e := fun _ _ _ _ _ hx => by cases hx
+  have w1 : (Smoother.mergeMin minSize pops).wrapped u = .ok s1 := h1
+  have w2 : (Smoother.mergeTopBottom nIter).wrapped s1 = .ok s2 := h2
+  have w3 : (Smoother.optimalSize choices).wrapped s2 = .ok s3 := h3
+  have w4 : (Smoother.nPlate minN).wrapped s3 = .ok nu := h
+  have m1 := (wrap_smoothOk (fun _ _ _ _ _ hu hm h => smoother_facts (Smoother.mergeMin minSize pops) hu hm h) w1).2.2 hm0
+  have m2 := (wrap_smoothOk (fun _ _ _ _ _ hu hm h => smoother_facts (Smoother.mergeTopBottom nIter) hu hm h) w2).2.2 m1
+  have m3 := (wrap_smoothOk (fun _ _ _ _ _ hu hm h => smoother_facts (Smoother.optimalSize choices) hu hm h) w3).2.2 m2
+  have m4 := (wrap_smoothOk (fun _ _ _ _ _ hu hm h => smoother_facts (Smoother.nPlate minN) hu hm h) w4).2.2 m3
+  exact ⟨m4, smoother_singleSample_basic ne4 w4 (smoother_singleSample_basic ne3 w3
+    (smoother_singleSample_basic ne2 w2 (smoother_singleSample_basic ne1 w1 hs0)))⟩
+
+/-- every shipped smoother, the ensemble included, keeps single-sample unobserved plates -/
+theorem smoother_singleSample (sm : Smoother) {r out : Screen} (h : sm.wrapped r = .ok out) (hs : SingleSample (rowsOf r)) :
+    SingleSample (rowsOf out) := by
+  by_cases he : ∃ a b c d e, sm = .ensemble a b c d e
+  · obtain ⟨a, b, c, d, e, rfl⟩ := he
+    apply wrap_singleSample h hs
+    intro u nu hu hnu
+    have B := build_ok hu
+    have hm0 : ∀ x ∈ rowsOf u, x.mask = false := by rw [B.rows_eq]; exact unobserved_mask
+    have hs0 : SingleSample (rowsOf u) := by
+      rw [B.rows_eq]
+      intro r1 h1 r2 h2 _ _ e'
+      obtain ⟨a1, m1⟩ := mem_of_mem_unobserved h1
+      obtain ⟨a2, m2⟩ := mem_of_mem_unobserved h2
+      exact hs r1 a1 r2 a2 m1 m2 e'
+    obtain ⟨mm, ss⟩ := ensemble_singleSample hm0 hs0 hnu
+    exact ⟨mm, singleSampleAll_of_unmasked ss mm⟩
+  · exact smoother_singleSample_basic (fun a b c d e hx => he ⟨a, b, c, d, e, hx⟩) h hs
 
 end Batchie.Prep
